@@ -1,6 +1,10 @@
 package worlds
 
 import (
+	azip "archive/zip"
+	"os"
+	"path/filepath"
+	"time"
 	"bytes"
 	"crypto/sha256"
 	"encoding/base64"
@@ -118,6 +122,11 @@ func (w *dirhashWorld) Check(c *core.Case) ([]core.Violation, bool) {
 			vs = append(vs, core.Violation{Sig: "set:after-failure", What: fmt.Sprintf("after a Hash1 call that failed on a read error, Hash1(%q) = %s (%v), the documented formula gives %s", names, got, err, want), Case: c})
 		}
 	}
+	if !exp.Refused && len(names) > 0 {
+		if msg := zipMetadata(names, contents, want); msg != "" {
+			vs = append(vs, core.Violation{Sig: "set:zip-metadata", What: msg, Case: c})
+		}
+	}
 	if !exp.Refused {
 		if msg := sharedListing(names, contents); msg != "" {
 			vs = append(vs, core.Violation{Sig: "set:shared-listing", What: msg, Case: c})
@@ -207,4 +216,57 @@ func (w *dirhashWorld) Record(rng *rand.Rand, n int, emit func(k string, in, obs
 		shared := err != nil || sharedListing(names, contents) == ""
 		emit("set", map[string]any{"files": files}, map[string]any{"refused": err != nil, "order": concrete.IntsList(sorted), "formula": (matches && shared) || err != nil})
 	}
+}
+
+// zipMetadata: HashZip of archives that hold the same names and bytes with different metadata (entry mode bits of a
+// symbolic link, a directory, a named pipe, a device; stored or deflated; modification times; comments) is the formula
+// over names and bytes.
+func zipMetadata(names []string, contents map[string][]byte, want string) string {
+	for _, n := range names {
+		if strings.HasSuffix(n, "/") || n == "" {
+			return "" // archive/zip treats such an entry as a directory and refuses content for it
+		}
+	}
+	dir := scratchDir()
+	defer os.RemoveAll(dir)
+	modes := []os.FileMode{0644, os.ModeSymlink | 0777, os.ModeDir | 0755, os.ModeNamedPipe | 0600, os.ModeDevice | 0600, os.ModeSetuid | 0755}
+	for variant := 0; variant < 3; variant++ {
+		var buf bytes.Buffer
+		zw := azip.NewWriter(&buf)
+		var desc []string
+		for i, n := range names {
+			fh := &azip.FileHeader{Name: n, Method: azip.Deflate}
+			if (i+variant)%2 == 1 {
+				fh.Method = azip.Store
+			}
+			m := modes[(i+variant*2+1)%len(modes)]
+			if variant == 0 {
+				m = modes[0]
+			}
+			fh.SetMode(m)
+			fh.Modified = time.Date(1980+10*variant+i, 1, 2, 3, 4, 5, 0, time.UTC)
+			fh.Comment = fmt.Sprintf("entry %d", i*variant)
+			w, err := zw.CreateHeader(fh)
+			if err != nil {
+				return ""
+			}
+			if _, err := w.Write(contents[n]); err != nil {
+				return ""
+			}
+			desc = append(desc, fmt.Sprintf("%q mode %v", n, m))
+		}
+		zw.SetComment(fmt.Sprintf("variant %d", variant))
+		if err := zw.Close(); err != nil {
+			return ""
+		}
+		zp := filepath.Join(dir, fmt.Sprintf("v%d.zip", variant))
+		if err := os.WriteFile(zp, buf.Bytes(), 0644); err != nil {
+			return ""
+		}
+		got, err := dirhash.HashZip(zp, dirhash.Hash1)
+		if err != nil || got != want {
+			return fmt.Sprintf("HashZip of an archive with the entries %v = %s (%v); the documented formula over names and bytes gives %s", desc, got, err, want)
+		}
+	}
+	return ""
 }
